@@ -27,11 +27,15 @@ MANIFEST = dict(
          'type (width 1..64, signed/unsigned) and every value in range the token rendered by the translated filter_literal parses in a C '
          'integer-constant grammar, denotes exactly that value without diagnostic in three data models, with the right signedness and a '
          'C type at least as wide as the DSDL type (int64 minimum needs the repaired spelling; the old one is refuted); floating '
-         'constant expressions denote the exact rational before rounding. Tie: translators + template scan on every run; compiled '
+         'constant expressions denote the exact rational before rounding whenever the division / integral form is rendered, the '
+         'operands of every rendered division are valid double constants (< 2^1023), otherwise the text is the decimal constant '
+         'returned by repr(float(value)) (oracle). Tie: translators + template scan on every run; compiled '
          'probes (meta) of random namespaces with constants of every primitive kind and extreme magnitudes, services, delimited types, '
          'fixed port ids on C (gcc -Werror -pedantic, clang sanitizers), C++14/17 and Python compared with the extracted model and '
          'with pydsdl; serialization with capacities 0..max+1 on C and C++.',
-    note='PARTIAL: the rounding of floating-point constants ("within one ulp of the exact rational") is NOT proved, only checked by '
+    note='ASSUMED: Python repr(float(Fraction)) returns a decimal that reads back as the correctly rounded double (library behaviour; '
+         'validated on every out-of-range constant of every run: the string is parsed by the Coq parse_fdec and its exact value must '
+         'round to the same binary64 as the DSDL rational). PARTIAL: the rounding of floating-point constants ("within one ulp of the exact rational") is NOT proved, only checked by '
          'correspondence (bit pattern printed by the probe vs. fractions-based correct rounding, <= 1 ulp); "nothing written on '
          'too_small" is proved on the code walker and tied by the template scan (check precedes the first write), not observed on the '
          'compiled code. Trusted: Coq kernel, T2 translator gen_c05.py (+ mapping of str(int), str*bool, isinstance to MetaC05Base.v), '
@@ -247,6 +251,30 @@ def float_lit_overflows(value: str) -> bool:
     return abs(fr.numerator) >= DBL_LIT_LIMIT or fr.denominator >= DBL_LIT_LIMIT
 
 
+def py_repr_float(fr: fractions.Fraction) -> str:
+    """the oracle of the model: what repr(float(Fraction)) returns in the interpreter that runs nunavut (assumed: shortest decimal
+    that reads back as the correctly rounded double; validated by float_model_ok on every out-of-range constant)"""
+    try:
+        return repr(float(fr))
+    except OverflowError:
+        return 'inf'
+
+
+def float_model_ok(t: typing.List[str], fr: fractions.Fraction) -> bool:
+    """t = tokens of the model's answer `ok <expr> <num>/<den> div=<0|1>`: the division / integral form must denote the rational
+    exactly; the oracle's decimal constant must read back as the correctly rounded double and be rendered verbatim"""
+    if len(t) != 4 or t[0] != 'ok' or '/' not in t[2]:
+        return False
+    got = parse_fraction(t[2])
+    limit = 2 ** 1023
+    div = abs(fr.numerator) < limit and fr.denominator < limit
+    if t[3] != 'div=%d' % (1 if div else 0):
+        return False
+    if fr.denominator == 1 or div:
+        return got == fr and not float_lit_overflows('%d/%d' % (fr.numerator, fr.denominator))
+    return t[1] == py_repr_float(fr) and round_to_binary(got, 64) == round_to_binary(fr, 64)
+
+
 def adopt_own_findings(chk: core.Check) -> None:
     """known_findings.json is merged by the lead from known_findings.d/*.json; until then read our own file as well"""
     p = os.path.join(core.VERIF, 'known_findings.d', 'C05.json')
@@ -350,7 +378,7 @@ def model_expected(m5: Model5, db: proto.TypeDB, tids: typing.List[str]) -> typi
                 lit_idx.append((tid, k['name'], kt, k['value']))
             elif kt['k'] == 'float':
                 fr = parse_fraction(k['value'])
-                lit_reqs.append('flt %d %d' % (fr.numerator, fr.denominator))
+                lit_reqs.append('flt %d %d %s' % (fr.numerator, fr.denominator, py_repr_float(fr)))
                 lit_idx.append((tid, k['name'], kt, k['value']))
     lits = m5.run(lit_reqs)
     for tid, r in zip(tids, xm):
@@ -388,7 +416,7 @@ def model_expected(m5: Model5, db: proto.TypeDB, tids: typing.List[str]) -> typi
                 bad.append({'tid': tid, 'constant': name, 'model': r, 'problems': ['translated filter_literal does not denote %s' % value]})
         else:
             fr = parse_fraction(value)
-            good = len(t) == 3 and t[0] == 'ok' and t[2] == '%d/%d' % (fr.numerator, fr.denominator)
+            good = float_model_ok(t, fr)
             out[tid]['consts'][name] = {'token': t[1].replace('_', ' ') if len(t) > 1 else None, 'value': value if good else None}
             if not good:
                 bad.append({'tid': tid, 'constant': name, 'model': r, 'problems': ['translated float expression does not denote %s' % value]})
@@ -417,13 +445,17 @@ def translator_selftest(chk: core.Check, exe5: str) -> typing.Tuple[int, typing.
         d = rng.choice([1, 1, 3, 10, rng.randint(1, 10 ** 6), 10 ** rng.randint(1, 60)])
         fr = fractions.Fraction(n, d)
         flt.append([rng.choice([16, 32, 64]), str(fr.numerator), str(fr.denominator)])
+    for n, d in ((11125369292536007, 5 * 10 ** 323), (1, 10 ** 310), (1, 2 ** 1023), (1, 2 ** 1023 - 1), (2 ** 1023, 3), (2 ** 1023 - 1, 3),
+                 (-(2 ** 1023) - 1, 7), (24703282292062327, 5 * 10 ** 339), (10 ** 400 + 1, 10 ** 400), (3, 2 ** 1074)):
+        fr = fractions.Fraction(n, d)
+        flt.append([64, str(fr.numerator), str(fr.denominator)])
     bad: typing.List[dict] = []
     total = 0
     m5 = Model5(exe5, proto.TypeDB({'types': []}))
     mb2b = m5.run(['b2b %d' % n for n in b2b])
     mfit = m5.run(['fit %d' % w for w in fit])
     mlit = m5.run(['lit %s %d %s' % ('u' if u else 's', w, v) for u, w, v in lit])
-    mflt = m5.run(['flt %s %s' % (n, d) for _, n, d in flt])
+    mflt = m5.run(['flt %s %s %s' % (n, d, py_repr_float(fractions.Fraction(int(n), int(d)))) for _, n, d in flt])
     for lang in ('c', 'cpp'):
         p = core.run([core.PY, os.path.join(core.VERIF, 'tools', 'harness', 'c05_impl.py')], env=core.repo_env(), timeout=300,
                      input=json.dumps({'b2b': b2b, 'fit': fit, 'lit': lit, 'flt': flt, 'lang': lang}))
@@ -446,7 +478,7 @@ def translator_selftest(chk: core.Check, exe5: str) -> typing.Tuple[int, typing.
             t = m.split()
             ctype = 'double' if w == 64 else 'float'
             want = impl['cast_format'].format(type=ctype, value=t[1].replace('_', ' ') if len(t) > 1 else '?')
-            if i != want:
+            if i != want or not float_model_ok(t, fractions.Fraction(int(n), int(d))):
                 bad.append({'function': 'filter_literal (float)', 'argument': [w, n, d], 'translated': m, 'python': i, 'lang': lang})
     return total, bad
 
